@@ -85,7 +85,7 @@ try:
     print('CHECK rc=%d' % p.returncode); print('\n'.join(l[:260] for l in lines[:6]))
 finally:
     shutil.rmtree(d, ignore_errors=True)
-rnd = 'r2' if '/wt2-' in wt else ('r3' if '/wt3-' in wt else ('r2' if '/wt4-' in wt else ('r5' if '/wt5-' in wt else ('r6' if '/wt6-' in wt else ('r7' if '/wt7-' in wt else ('r8' if '/wt8-' in wt else ''))))))
+rnd = 'r9' if '/wt9-' in wt else 'r2' if '/wt2-' in wt else ('r3' if '/wt3-' in wt else ('r2' if '/wt4-' in wt else ('r5' if '/wt5-' in wt else ('r6' if '/wt6-' in wt else ('r7' if '/wt7-' in wt else ('r8' if '/wt8-' in wt else ''))))))
 if rnd == 'r3' and prop in ('C05', 'C16'):
     rnd = ''
 out_dir = os.path.join('/verif/seeded', '%s-%s%s' % (prop, rnd, mid))
